@@ -222,6 +222,12 @@ def mutate1 (p : Base) (b : Block) (a : List String) : Option Block :=
       | "txnil", some i => (b.txids[i]?).map fun _ => { b with txids := setAt b.txids i [] }
       | "txtrunc", some i => (b.txids[i]?).map fun t => { b with txids := setAt b.txids i t.dropLast }
       | "txcontent", some i => (b.txids[i]?).map fun _ => b
+      | "fixlevels", some k =>
+        -- the k lowest levels of the carried tree recomputed from the (tampered) body, everything above kept
+        let nt := merkleTree sym.H b.txids
+        if b.carried.isEmpty || nt.length != b.carried.length then none else
+        let cnt := (List.range k).foldl (fun a j => a + leafSize b.txids.length / 2 ^ j) 0
+        if cnt ≥ nt.length then none else some { b with carried := nt.take cnt ++ b.carried.drop cnt }
       | "txshift", some i =>
         match b.txids[i]?, b.txids[i+1]? with
         | some x, some y => some { b with txids := setAt (setAt b.txids i (x ++ y.take 16)) (i + 1) (y.drop 16) }
